@@ -133,7 +133,11 @@ def attribute(res, meta):
         for (name, a, b) in fns:
             if a <= line <= b and (best is None or a >= best[1]):
                 best = (name, a, b)
-        return best[0] if best else None
+        if best is None:
+            # range table missed it (an unusual token sequence can end a range early): the closest function that starts above the line
+            prev = [(a, name) for (name, a, b) in fns if a <= line]
+            return max(prev)[1] if prev else None
+        return best[0]
     for d in res['diags']:
         tg = []
         fn = None
